@@ -4,5 +4,6 @@ pub mod spec;
 pub mod vz;
 pub mod c08_kernels;
 pub mod c08_vec;
+pub mod c08_enc;
 pub mod c09;
 pub mod generated;
